@@ -25,6 +25,7 @@ type c11Builder struct {
 	mk   *ast.CallExpr
 	src  ast.Expr     // X of len(X)
 	srcT *types.Named // osm.Nodes / osm.Ways / osm.Relations
+	pos  token.Pos
 }
 
 func c11LenArg(info *types.Info, e ast.Expr) ast.Expr {
@@ -53,9 +54,29 @@ func c11FindBuilders(apk *packages.Package) []*c11Builder {
 			if nt == nil || nt.Obj().Pkg() == nil || nt.Obj().Pkg().Path() != core.ModulePath {
 				return true
 			}
-			out = append(out, &c11Builder{fi: fi, mk: call, src: x, srcT: nt})
+			out = append(out, &c11Builder{fi: fi, mk: call, src: x, srcT: nt, pos: call.Pos()})
 			return true
 		})
+	}
+	// conversions by signature: func(osm.Nodes|Ways|Relations) core.ChildList, however the list is allocated
+	// (directly, or by a generic helper that takes the length and a callback producing the i-th child)
+	have := map[*types.Func]bool{}
+	for _, b := range out {
+		have[b.fi.Obj] = true
+	}
+	for _, fi := range allFuncs(apk) {
+		sig := fi.Obj.Type().(*types.Signature)
+		if have[fi.Obj] || sig.Recv() != nil || sig.Params().Len() != 1 || sig.Results().Len() != 1 || namedPath(sig.Results().At(0).Type()) != c11CorePath+".ChildList" {
+			continue
+		}
+		nt, ok := sig.Params().At(0).Type().(*types.Named)
+		if !ok || nt.Obj().Pkg() == nil || nt.Obj().Pkg().Path() != core.ModulePath {
+			continue
+		}
+		if _, ok := nt.Underlying().(*types.Slice); !ok {
+			continue
+		}
+		out = append(out, &c11Builder{fi: fi, srcT: nt, pos: fi.Decl.Pos()})
 	}
 	return out
 }
@@ -108,16 +129,30 @@ func c11A4Builder(r *core.R, it *c11Interp, b *c11Builder) {
 		r.Unknown(ci, fi.Decl.Pos(), "%s could not be followed on every path", fi.Name())
 		return
 	}
-	mkName := "make@" + strconv.Itoa(int(b.mk.Pos()))
+	mkName := "" // the allocation site, when the builder allocates the list itself
+	if b.mk != nil {
+		mkName = "make@" + strconv.Itoa(int(b.mk.Pos()))
+	}
+	isList := func(v *c11V) bool {
+		if v.k != "call" || !strings.HasPrefix(v.name, "make@") {
+			return false
+		}
+		if mkName != "" {
+			return v.name == mkName
+		}
+		return v.typ != nil && namedPath(v.typ) == c11CorePath+".ChildList"
+	}
 	// the list term, its source and the fill loop
-	var L, X *c11V
+	var L, X, key *c11V // key: the position symbol of the fill loop (range key, or the variable of a counting loop over the whole list)
 	fill := ""
 	for _, p := range paths {
 		for _, ev := range p.st.ev {
-			if ev.kind == "store" && ev.lhs.k == "index" && ev.lhs.xs[0].k == "call" && ev.lhs.xs[0].name == mkName {
+			if ev.kind == "store" && ev.lhs.k == "index" && isList(ev.lhs.xs[0]) {
 				L = ev.lhs.xs[0]
-				if lk, ok := c11IsIterKey(ev.lhs.xs[1]); ok {
-					fill = lk
+				if len(L.xs) >= 1 {
+					if lk, ok := c11IsPosition(paths, p.st, ev.lhs.xs[1], L.xs[0]); ok {
+						fill, key = lk, ev.lhs.xs[1]
+					}
 				}
 			}
 		}
@@ -125,9 +160,31 @@ func c11A4Builder(r *core.R, it *c11Interp, b *c11Builder) {
 	if L != nil && len(L.xs) >= 1 && L.xs[0].k == "call" && L.xs[0].name == "len" {
 		X = L.xs[0].xs[0]
 	}
+	// append-built list (`list = append(list, c)` once per iteration, from an empty list): the position of a
+	// child in the list is the position of its iteration
+	var acc *c11V // the symbol of the accumulated list at the head of an iteration
+	if L == nil {
+		for _, p := range paths {
+			for _, ev := range p.st.ev {
+				if ev.kind != "call" || ev.call.name != "append" || len(ev.call.xs) != 2 || ev.call.typ == nil || namedPath(ev.call.typ) != c11CorePath+".ChildList" {
+					continue
+				}
+				lk, ok := c11IsLoopSym(ev.call.xs[0])
+				if !ok {
+					continue
+				}
+				if C := ev.call.xs[1]; C.k == "call" && len(C.xs) == 1 && C.xs[0].k == "index" {
+					if lk2, ok := c11IsPosition(paths, p.st, C.xs[0].xs[1], &c11V{k: "call", name: "len", xs: []*c11V{C.xs[0].xs[0]}}); ok && lk2 == lk {
+						acc, fill, key, X = ev.call.xs[0], lk, C.xs[0].xs[1], C.xs[0].xs[0]
+						L = acc
+					}
+				}
+			}
+		}
+	}
 	if L == nil || X == nil || fill == "" {
-		r.Bad(cs, b.mk.Pos(), "no loop stores into the list %s allocates at its loop position: %s", fi.Name(), consequence)
-		r.Bad(ci, b.mk.Pos(), "no loop over the history assigns list[i]")
+		r.Bad(cs, b.pos, "no loop stores into the list %s allocates at its loop position: %s", fi.Name(), consequence)
+		r.Bad(ci, b.pos, "no loop over the history assigns list[i]")
 		return
 	}
 	elemIsWay := false
@@ -136,7 +193,7 @@ func c11A4Builder(r *core.R, it *c11Interp, b *c11Builder) {
 	}
 	var sortBad, idxBad, revBad []string
 	nIter, nRev := 0, 0
-	pos := b.mk.Pos()
+	pos := b.pos
 	for _, p := range paths {
 		st := p.st
 		// position of the fill loop among the events
@@ -160,6 +217,11 @@ func c11A4Builder(r *core.R, it *c11Interp, b *c11Builder) {
 				sortBad = append(sortBad, "the loop that assigns VersionIndex is entered on a path where the history it was sized from has not been sorted with SortByIDVersion before (the sort is missing, runs after or inside the loop, or sorts another slice): a datasource may return the history in any order")
 			}
 		}
+		if acc != nil && loopAt >= 0 {
+			if pre := st.ev[loopAt].pre[acc.obj]; pre == nil || !(pre.k == "nil" || (pre.k == "call" && strings.HasPrefix(pre.name, "make@") && len(pre.xs) >= 1 && pre.xs[0].isConstInt(0))) {
+				idxBad = append(idxBad, "the appended-to list is not empty before the loop: list index and iteration position would differ")
+			}
+		}
 		if p.ctl == c11Return && len(p.res) >= 1 && p.res[0].k != "nil" {
 			switch {
 			case p.res[0].key() != L.key():
@@ -180,17 +242,25 @@ func c11A4Builder(r *core.R, it *c11Interp, b *c11Builder) {
 			continue
 		}
 		nIter++
-		key := c11Sym("iter@"+fill+":key", nil)
 		elem := &c11V{k: "index", xs: []*c11V{X, key}}
 		var C *c11V
 		nStore := 0
 		for _, ev := range st.ev[loopAt+1:] {
-			if ev.kind == "store" && ev.lhs.k == "index" && ev.lhs.xs[0].key() == L.key() {
+			if acc == nil && ev.kind == "store" && ev.lhs.k == "index" && ev.lhs.xs[0].key() == L.key() {
 				nStore++
 				if ev.lhs.xs[1].key() != key.key() {
 					idxBad = append(idxBad, "`"+src(r.P.Fset, ev.node)+"`: the child of position i must be stored at list index i")
 				}
 				C = ev.rhs
+			}
+			if acc != nil && ev.kind == "call" && ev.call.name == "append" && len(ev.call.xs) == 2 && ev.call.xs[0].key() == acc.key() {
+				nStore++
+				C = ev.call.xs[1]
+			}
+		}
+		if acc != nil && C != nil {
+			if end := st.env[acc.obj]; end == nil || end.k != "call" || end.name != "append" || len(end.xs) != 2 || end.xs[0].key() != acc.key() || end.xs[1].key() != C.key() {
+				idxBad = append(idxBad, "an iteration does not end with the list extended by exactly its child")
 			}
 		}
 		if nStore != 1 || C == nil {
@@ -210,7 +280,8 @@ func c11A4Builder(r *core.R, it *c11Interp, b *c11Builder) {
 				switch ev.lhs.obj.Name() {
 				case "VersionIndex":
 					nVI++
-					if ev.rhs.key() != key.key() {
+					atEnd := acc != nil && ev.rhs.k == "call" && ev.rhs.name == "len" && len(ev.rhs.xs) == 1 && ev.rhs.xs[0].key() == acc.key() // len(list) before the append
+					if ev.rhs.key() != key.key() && !atEnd {
 						idxBad = append(idxBad, "`"+src(r.P.Fset, ev.node)+"`: VersionIndex must be the loop position i (Compute indexes child[VersionIndex+1...])")
 					}
 				case "ReverseOfPrevious":
@@ -267,342 +338,4 @@ func c11Trunc(s string) string {
 		return s[:157] + "..."
 	}
 	return s
-}
-
-// c11A4Gets: every ChildList a Datasourcer.Get of package annotate returns is nil, the result of a builder, or
-// directly the user's AsChildren result.
-func c11A4Gets(r *core.R, apk *packages.Package, newIt func() *c11Interp, isBuilder map[*types.Func]bool) {
-	cpk := r.P.Pkg("annotate/internal/core")
-	var iface *types.Interface
-	if cpk != nil {
-		if o := cpk.Types.Scope().Lookup("Datasourcer"); o != nil {
-			iface, _ = o.Type().Underlying().(*types.Interface)
-		}
-	}
-	if iface == nil {
-		r.Anchor("core.Datasourcer")
-		return
-	}
-	n := 0
-	for _, fi := range allFuncs(apk) {
-		sig := fi.Obj.Type().(*types.Signature)
-		if sig.Recv() == nil || fi.Obj.Name() != "Get" || !types.Implements(sig.Recv().Type(), iface) {
-			continue
-		}
-		n++
-		c := "get@" + fi.Name()
-		it := newIt()
-		outs, _ := it.run(fi, nil)
-		if notes := c11PathNotes(it, outs); len(notes) > 0 {
-			r.Unknown(c, fi.Decl.Pos(), "%s could not be followed on every path: %s", fi.Name(), strings.Join(notes, "; "))
-			continue
-		}
-		var via, user, own, bad []string
-		for _, o := range outs {
-			if o.ctl != c11Return || len(o.res) == 0 {
-				continue
-			}
-			v := o.res[0]
-			if v.k == "res" && v.id == 0 {
-				v = v.xs[0]
-			}
-			switch {
-			case v.k == "nil":
-			case v.k == "call" && v.fn != nil && isBuilder[v.fn]:
-				via = append(via, v.fn.Name())
-			case v.k == "call" && v.fn != nil && v.recv && types.IsInterface(v.fn.Type().(*types.Signature).Recv().Type()):
-				user = append(user, v.fn.Name())
-			case v.k == "call" && strings.HasPrefix(v.name, "make@") && isBuilder[fi.Obj]:
-				own = append(own, "a list it builds itself")
-			default:
-				bad = append(bad, "`"+src(r.P.Fset, o.ret)+"` ("+c11Trunc(v.key())+")")
-			}
-		}
-		switch {
-		case len(bad) > 0:
-			r.Unknown(c, fi.Decl.Pos(), "%s returns a child list that is neither built by a checked list builder nor the user's AsChildren result: %s", fi.Name(), strings.Join(c11Uniq(bad), ", "))
-		case len(via)+len(own) > 0:
-			r.OK(c, fi.Decl.Pos(), "every returned list comes from %s", strings.Join(c11Uniq(append(via, own...)), ", "))
-		default:
-			r.OKTrivial(c, fi.Decl.Pos(), "returns the user datasource's %s unchanged (trusted: version-sorted, VersionIndex == position)", strings.Join(c11Uniq(user), ", "))
-		}
-	}
-	if n == 0 {
-		r.Anchor("Get methods of package annotate implementing core.Datasourcer")
-	}
-}
-
-// c11SortAdapter resolves the adapter type handed to sort.Sort / sort.Stable by fi or an unexported helper it calls.
-func c11SortAdapter(pk *packages.Package, fi *FuncInfo) *types.Named {
-	var res *types.Named
-	inspectDeep(pk, fi, 2, func(site deepSite, n ast.Node) bool {
-		call, ok := n.(*ast.CallExpr)
-		if !ok {
-			return true
-		}
-		fn := callee(pk.TypesInfo, call)
-		if (isPkgFunc(fn, "sort", "Sort") || isPkgFunc(fn, "sort", "Stable")) && len(call.Args) == 1 {
-			t := pk.TypesInfo.TypeOf(call.Args[0])
-			if p, ok := t.(*types.Pointer); ok {
-				t = p.Elem()
-			}
-			if nt, ok := t.(*types.Named); ok {
-				res = nt
-			}
-		}
-		return true
-	})
-	return res
-}
-
-// c11A4Order: the comparator behind osm.<T>.SortByIDVersion orders by ascending ID, equal ids by strictly
-// ascending Version. Finite-domain evaluation: for each of the 3x3 relations between (ID_i, ID_j) and
-// (Version_i, Version_j) the comparator is executed with an oracle deciding its comparisons; the value it
-// returns must be `ID_i < ID_j || (ID_i == ID_j && Version_i < Version_j)`.
-func c11A4Order(r *core.R, tname string) {
-	pk := r.P.Pkg("")
-	info := pk.TypesInfo
-	c := "order@" + tname + ".SortByIDVersion"
-	sfi := findFunc(pk, tname+".SortByIDVersion")
-	if sfi == nil {
-		r.Anchor("osm." + tname + ".SortByIDVersion")
-		return
-	}
-	ad := c11SortAdapter(pk, sfi)
-	if ad == nil {
-		r.Anchor("sort.Sort(adapter) in osm." + tname + ".SortByIDVersion")
-		return
-	}
-	lf := findFunc(pk, ad.Obj().Name()+".Less")
-	if lf == nil || lf.Decl.Body == nil {
-		r.Anchor(ad.Obj().Name() + ".Less")
-		return
-	}
-	recvO := c11RecvObj(info, lf.Decl)
-	sig := lf.Obj.Type().(*types.Signature)
-	if recvO == nil || sig.Params().Len() != 2 || sig.Params().At(0).Name() == "_" || sig.Params().At(1).Name() == "_" {
-		r.Unknown(c, lf.Decl.Pos(), "Less without named receiver / two named parameters")
-		return
-	}
-	bad, unk := c11LessTable(pk, lf, recvO, []string{"ID", "Version"})
-	switch {
-	case len(bad) > 0:
-		r.Bad(c, lf.Decl.Pos(), "%s.Less: %s; it must be ID_i < ID_j || (ID_i == ID_j && Version_i < Version_j): versions of one element must be ordered by strictly ascending Version, otherwise VersionIndex does not count versions from lowest to highest", ad.Obj().Name(), strings.Join(bad, "; "))
-	case len(unk) > 0:
-		r.Unknown(c, lf.Decl.Pos(), "%s.Less: %s", ad.Obj().Name(), strings.Join(c11Uniq(unk), "; "))
-	default:
-		r.OK(c, lf.Decl.Pos(), "%s.Less evaluated on all 9 relations of (ID, Version): true exactly when ID_i < ID_j or ID_i == ID_j && Version_i < Version_j", ad.Obj().Name())
-	}
-}
-
-// c11LessTable evaluates the comparator lf (method Less(i, j) of a sort adapter with receiver recvO) on every
-// combination of relations (lt, eq, gt) between the i-side and the j-side of the given element fields and
-// compares the value it returns with the strict lexicographic order over those fields. Comparisons of a
-// field are recognised as terms: x.F < y.F, x.F == y.F (any spelling that normalises to them) and, for
-// time.Time fields, x.F.Before(y.F), x.F.After(y.F), x.F.Equal(y.F). bad: the table differs; unk: the
-// comparator tests something else / does not reduce to one decided path.
-func c11LessTable(pk *packages.Package, lf *FuncInfo, recvO types.Object, fields []string) (bad, unk []string) {
-	sig := lf.Obj.Type().(*types.Signature)
-	recv, pi, pj := c11Param(recvO), c11Param(sig.Params().At(0)), c11Param(sig.Params().At(1))
-	side := func(v *c11V) (string, string) {
-		v = c11StripPtr(v)
-		if v.k != "field" || v.xs[0].k != "index" || v.xs[0].xs[0].key() != recv.key() {
-			return "", ""
-		}
-		switch v.xs[0].xs[1].key() {
-		case pi.key():
-			return "i", v.obj.Name()
-		case pj.key():
-			return "j", v.obj.Name()
-		}
-		return "", ""
-	}
-	flip := map[string]string{"lt": "gt", "gt": "lt", "eq": "eq"}
-	var combos []map[string]string
-	var gen func(n int, cur map[string]string)
-	gen = func(n int, cur map[string]string) {
-		if n == len(fields) {
-			m := map[string]string{}
-			for k, v := range cur {
-				m[k] = v
-			}
-			combos = append(combos, m)
-			return
-		}
-		for _, rl := range []string{"lt", "eq", "gt"} {
-			cur[fields[n]] = rl
-			gen(n+1, cur)
-		}
-	}
-	gen(0, map[string]string{})
-	for _, rel := range combos {
-		rel := rel
-		oracle := func(st *c11St, v *c11V) c11Tri {
-			var a, b *c11V
-			want := ""
-			switch {
-			case v.k == "bin" && v.op == token.LSS:
-				a, b, want = v.xs[0], v.xs[1], "lt"
-			case v.k == "bin" && v.op == token.EQL:
-				a, b, want = v.xs[0], v.xs[1], "eq"
-			case v.k == "call" && v.recv && v.fn != nil && len(v.xs) == 2 && namedPath(v.fn.Type().(*types.Signature).Recv().Type()) == "time.Time":
-				a, b = v.xs[0], v.xs[1]
-				want = map[string]string{"Before": "lt", "After": "gt", "Equal": "eq"}[v.fn.Name()]
-			}
-			if want == "" {
-				return c11U
-			}
-			sa, fa := side(a)
-			sb, fb := side(b)
-			if sa == "" || sb == "" || fa != fb || sa == sb || rel[fa] == "" {
-				return c11U
-			}
-			rl := rel[fa] // relation of the i side to the j side
-			if sa == "j" {
-				rl = flip[rl]
-			}
-			if rl == want {
-				return c11T
-			}
-			return c11F
-		}
-		expect := false
-		for _, f := range fields {
-			if rel[f] == "lt" {
-				expect = true
-			}
-			if rel[f] != "eq" {
-				break
-			}
-		}
-		var desc []string
-		for _, f := range fields {
-			desc = append(desc, f+"_i "+rel[f]+" "+f+"_j")
-		}
-		it := c11NewInterp(pk)
-		it.oracle = oracle
-		outs, _ := it.run(lf, nil)
-		if len(c11PathNotes(it, outs)) > 0 || len(outs) != 1 || len(outs[0].res) != 1 {
-			unk = append(unk, "for "+strings.Join(desc, ", ")+" the comparator does not reduce to one decided path (it tests something other than comparisons of these fields of the two elements)")
-			continue
-		}
-		got := outs[0].st.truthAt(outs[0].res[0], -1, func(v *c11V) c11Tri { return oracle(outs[0].st, v) })
-		switch {
-		case got == c11U:
-			unk = append(unk, "for "+strings.Join(desc, ", ")+" the returned value "+c11Trunc(outs[0].res[0].key())+" is not decided by the field relations")
-		case (got == c11T) != expect:
-			bad = append(bad, "for "+strings.Join(desc, ", ")+" Less(i, j) is "+map[bool]string{true: "true", false: "false"}[got == c11T])
-		}
-	}
-	return bad, unk
-}
-
-// c11A5Refs: Refs() and SetChild of every Parent implementation address the same member list at the same positions.
-func c11A5Refs(r *core.R) {
-	apk := r.P.Pkg("annotate")
-	impls := c11ParentImpls(r.P)
-	if apk == nil || len(impls) == 0 {
-		r.Anchor("types of package annotate implementing core.Parent")
-		return
-	}
-	info := apk.TypesInfo
-	self := c11Sym("receiver", nil)
-	for _, nt := range impls {
-		tn := nt.Obj().Name()
-		rf, sf := findFunc(apk, tn+".Refs"), findFunc(apk, tn+".SetChild")
-		if rf == nil || sf == nil || rf.Decl.Body == nil || sf.Decl.Body == nil {
-			r.Anchor(tn + ".Refs / SetChild")
-			continue
-		}
-		c := "refs@" + rf.Name()
-		sRecv, rRecv := c11RecvObj(info, sf.Decl), c11RecvObj(info, rf.Decl)
-		if sRecv == nil || rRecv == nil {
-			r.Unknown(c, rf.Decl.Pos(), "unnamed receivers")
-			continue
-		}
-		// the list SetChild writes into
-		its := c11NewInterp(apk)
-		var setList *c11V
-		for _, p := range c11AllPaths(its, sf, map[types.Object]*c11V{sRecv: self}) {
-			for _, ev := range p.st.ev {
-				if ev.kind == "store" && ev.lhs.k == "field" && ev.lhs.xs[0].k == "index" && c11FieldOwnedBy(r.P, ev.lhs.obj.(*types.Var), "WayNode", "Member") != nil {
-					setList = ev.lhs.xs[0].xs[0]
-				}
-			}
-		}
-		itr := c11NewInterp(apk)
-		paths := c11AllPaths(itr, rf, map[types.Object]*c11V{rRecv: self})
-		if notes := c11PathNotes(itr, paths); len(notes) > 0 || setList == nil {
-			r.Unknown(c, rf.Decl.Pos(), "Refs / SetChild of %s could not be followed (%s); accepted: Refs fills ids[i] = <members>[i].FeatureID(), annotated[i] = <members>[i].Version != 0 and returns them; SetChild writes <members>[idx].F", tn, strings.Join(notes, "; "))
-			continue
-		}
-		lenL := &c11V{k: "call", name: "len", xs: []*c11V{setList}}
-		var ids, ann *c11V
-		var bad []string
-		for _, p := range paths {
-			if p.ctl != c11Return {
-				continue
-			}
-			if len(p.res) != 2 {
-				bad = append(bad, "Refs does not return two values")
-				continue
-			}
-			for n, v := range p.res {
-				if !(v.k == "call" && strings.HasPrefix(v.name, "make@") && len(v.xs) >= 1 && v.xs[0].key() == lenL.key()) {
-					bad = append(bad, "result "+strconv.Itoa(n)+" of Refs is not a slice made with len(<the list SetChild indexes>): positions reported to Compute and positions annotated would differ")
-				}
-			}
-			ids, ann = p.res[0], p.res[1]
-		}
-		nIter := 0
-		if ids != nil && ann != nil && len(bad) == 0 {
-			for _, p := range paths {
-				if p.ctl != c11Back {
-					continue
-				}
-				key := c11Sym("iter@"+p.loopKey+":key", nil)
-				elem := &c11V{k: "index", xs: []*c11V{setList, key}}
-				okIDs, okAnn := false, false
-				for _, ev := range p.st.ev {
-					if ev.kind != "store" || ev.lhs.k != "index" || ev.lhs.xs[1].key() != key.key() {
-						continue
-					}
-					switch ev.lhs.xs[0].key() {
-					case ids.key():
-						if v := ev.rhs; v.k == "call" && v.recv && v.fn != nil && v.fn.Name() == "FeatureID" && len(v.xs) == 1 && c11StripPtr(v.xs[0]).key() == elem.key() {
-							okIDs = true
-						}
-					case ann.key():
-						if v := ev.rhs; v.k == "not" && v.xs[0].k == "bin" && v.xs[0].op == token.EQL {
-							a, b := v.xs[0].xs[0], v.xs[0].xs[1]
-							if a.isConstInt(0) {
-								a, b = b, a
-							}
-							if b.isConstInt(0) && a.k == "field" && a.obj.Name() == "Version" && a.xs[0].key() == elem.key() {
-								okAnn = true
-							}
-						}
-					}
-				}
-				if !okIDs && !okAnn {
-					continue // another loop
-				}
-				nIter++
-				if !okIDs {
-					bad = append(bad, "an iteration does not store ids[i] = <members>[i].FeatureID(): the history fetched for position i would belong to another child than the one SetChild(i, …) annotates")
-				}
-				if !okAnn {
-					bad = append(bad, "an iteration does not store annotated[i] = <members>[i].Version != 0: the ChildFilter could suppress the annotation of a child that has none yet")
-				}
-			}
-			if nIter == 0 {
-				bad = append(bad, "no loop fills ids[i] / annotated[i] from the element at position i of the list SetChild indexes")
-			}
-		}
-		if len(bad) > 0 {
-			r.Bad(c, rf.Decl.Pos(), "%s", strings.Join(c11Uniq(bad), "; "))
-		} else {
-			r.OK(c, rf.Decl.Pos(), "both results are made with len(L) and every iteration stores ids[i] = L[i].FeatureID(), annotated[i] = L[i].Version != 0 for L = %s, the list SetChild writes at L[idx]: same list, same positions", strings.ReplaceAll(setList.key(), "$receiver", "<receiver>"))
-		}
-	}
 }
